@@ -563,10 +563,11 @@ func (w *tWriter) empty() bool {
 // Closes the storage.Writer.
 func (w *tWriter) close() error {
 	if w.w != nil {
-		if err := w.w.Close(); err != nil {
-			return err
-		}
+		// A storage writer must not be closed again after a failed Close (it
+		// reports ErrClosed from then on), so forget it in either case.
+		err := w.w.Close()
 		w.w = nil
+		return err
 	}
 	return nil
 }
@@ -598,9 +599,8 @@ func (w *tWriter) finish() (f *tFile, err error) {
 
 // Drops the table.
 func (w *tWriter) drop() error {
-	if err := w.close(); err != nil {
-		return err
-	}
+	// The file is removed even when closing it failed.
+	cerr := w.close()
 	w.tw = nil
 	w.first = nil
 	w.last = nil
@@ -608,5 +608,5 @@ func (w *tWriter) drop() error {
 		return err
 	}
 	w.t.s.reuseFileNum(w.fd.Num)
-	return nil
+	return cerr
 }
